@@ -153,7 +153,7 @@ def decide(pid, tier, seed, reports, known, wall, write_replay, verbose=False):
     from specs import assumed
     trusted_base = sorted(trusted | set(assumed.TRUSTED_ALWAYS))
     all_proved = ob_total > 0 and ob_proved == ob_total and not undecided and not faults
-    level = 'proof' if all_proved else 'other'
+    level = 'proof' if all_proved else ('exploration' if ob_total == 0 and evaluations > 0 and not faults else 'other')
     cov = dict(
         obligations=ob_total, discharged=ob_proved,
         checker_cmd=f'./check {pid} --tier {tier}',
@@ -166,8 +166,9 @@ def decide(pid, tier, seed, reports, known, wall, write_replay, verbose=False):
         evaluations=max(evaluations, 0), distinct_nontrivial=distinct,
         rule='; '.join(rules) if rules else 'deductive obligations only; bounded stand-ins listed under "bounded"',
         samples=(samples[:8] or [r for r in ob_rows[:3]]),
-        explanation=('every obligation generated from the current source was discharged' if all_proved else
-                     f'{ob_proved}/{ob_total} obligations discharged; undecided ones fall to the bounded stand-ins (bounded, not proof)'),
+        explanation=('every obligation generated from the current source was discharged; bounded stand-ins (listed under "bounded") passed and are not counted as proof' if all_proved else
+                     ('no deductive obligation is attached to this property: decided by bounded run-time contract stand-ins only (bounded, not proof)' if ob_total == 0 else
+                      f'{ob_proved}/{ob_total} obligations discharged; undecided ones fall to the bounded stand-ins (bounded, not proof)')),
         known_findings=[dict(match=k['match'], what=k['what'], observed=bool(known_hit.get(k['match']))) for k in known if k.get('status', 'open') == 'open'],
     )
     ev = dict(property_id=pid, tier=tier, seed=seed, level=level, coverage=cov,
